@@ -18,9 +18,10 @@ import app_common
 
 
 class ParkedThread:
-    """threading.Thread double: start() marks the generator alive but never
-    runs the worker; the harness delivers ticks itself."""
-    instances = 0
+    """threading.Thread double: start() marks the generator alive but never runs the worker; the harness delivers
+    ticks itself.  The double keeps track of every started worker: a worker counts as terminated only once it
+    has been join()ed after the breaker was set (that is the only way the real loop can be known to have exited)."""
+    started = []          # every instance that was start()ed and not yet joined
 
     def __init__(self, target=None, **kw):
         self.target = target
@@ -29,13 +30,15 @@ class ParkedThread:
 
     def start(self):
         self._alive = True
-        ParkedThread.instances += 1
+        ParkedThread.started.append(self)
 
     def is_alive(self):
         return self._alive
 
     def join(self, timeout=None):
         self._alive = False
+        if self in ParkedThread.started:
+            ParkedThread.started.remove(self)
 
 
 class FakeEvent:
@@ -93,6 +96,7 @@ class App:
                  bind_addr="0.0.0.0"):
         check_patchable()
         self.net = FakeNet()
+        ParkedThread.started = []
         self.logs = log_capture()
         self.logs.take()
         self.sleeper = SleepRecorder()
@@ -154,6 +158,10 @@ class App:
         self.net.take()
         self.app.clck_handler(fn)
         return self.net.take()
+
+    def live_clock_workers(self):
+        """number of clock worker threads that were started and never joined"""
+        return len(ParkedThread.started)
 
     def close(self):
         # release sockets (UDPLink.__del__ closes them; be explicit)
